@@ -247,3 +247,27 @@ func vh_C10_L6_inflight_bytes_exact() {
 	vassert(a.inflightQueue.getNumBytes() == 0 && a.inflightQueue.size() == 0, "nothing in flight at the end")
 	vcover("end")
 }
+
+// C10.L7: a tail-loss-recovery episode ends. Two to three chunks are outstanding (TSN base
+// symbolic: anywhere, also astride the 2^32 wrap); the probe timer fires (the episode
+// begins and remembers the highest outstanding TSN); more data is sent; then a SACK
+// acknowledges, cumulatively, up to some TSN: the episode is over exactly when everything
+// that was outstanding at its start has been acknowledged, and from then on bursts are no
+// longer capped by it.
+func vh_C10_L7_tail_loss_recovery_ends() {
+	k := 2 + vPick(2)
+	f := vInFlight(k, true) // k chunks in flight and one message waiting
+	a := f.a
+	a.onPTOTimer()
+	vassert(a.tlrActive, "the probe timer starts a recovery episode")
+	end := f.base + uint32(k)
+	_ = vWriterWake(a) // the waiting message (and the probe) go out
+	ackTo := 1 + vPick(k+1) // cumulative ack up to chunk 1..k+1
+	vassert(vDeliver(a, &chunkSelectiveAck{cumulativeTSNAck: f.base + uint32(ackTo), advertisedReceiverWindowCredit: 1 << 20}) == nil, "SACK ok")
+	if ackTo >= k {
+		vassert(!a.tlrActive, "the episode ends once everything outstanding at its start is acknowledged, wherever the TSNs lie")
+	} else {
+		vassert(a.tlrActive && a.tlrEndTSN == end, "the episode lasts until then")
+	}
+	vcover("end")
+}
